@@ -59,9 +59,9 @@ theorem eqCmds_onRules (diff : Differ) (ra rb : Rule) : ∀ c ∈ eqCmds diff ra
 /-- **One matched rule.** -/
 theorem equalize_sim {sh : Shared} {Ref : String → Prop} (diff : Differ) (hd : GoodDiffer diff)
     (hid : IdentityDiffer diff) (fuel : Nat) (st : St) (vg : Vsys) (ra rb : Rule)
-    (hI : GInv Ref st) (hS : SimG sh st vg)
+    (hI : GInv Ref st) (hS : SimG sh Ref st vg)
     (hA1 : AShape st ra.src) (hA2 : AShape st ra.dst) (hB1 : BShape Ref st rb.src) (hB2 : BShape Ref st rb.dst) :
-    ∃ st' vg', equalize diff (fuel + 2) st ra rb = st' ∧ GInv Ref st' ∧ SimG sh st' vg' ∧ GMono st st' ∧
+    ∃ st' vg', equalize diff (fuel + 2) st ra rb = st' ∧ GInv Ref st' ∧ SimG sh Ref st' vg' ∧ GMono st st' ∧
       GSettled st' rb.src ∧ GSettled st' rb.dst ∧
       Step sh st vg st' vg' (eqCmds diff ra (adaptRule st' rb)) := by
   obtain ⟨st1, vg1, e1, step1, i1, s1, set1⟩ := equalizeList_sim (sh := sh) diff hd hid fuel st vg ra.src rb.src ra.name .src
@@ -90,7 +90,7 @@ theorem equalize_sim {sh : Shared} {Ref : String → Prop} (diff : Differ) (hd :
     split
     · exact i2.emitAll _
     · exact i2
-  have hS3 : SimG sh (if ra.srv != rb.srv then st2.emit (.editList ra.name .srv rb.srv) else st2) vg2 := by
+  have hS3 : SimG sh Ref (if ra.srv != rb.srv then st2.emit (.editList ra.name .srv rb.srv) else st2) vg2 := by
     split
     · exact s2.emitAll _
     · exact s2
@@ -126,27 +126,32 @@ theorem getD_map_adapt (st : St) (B : List Rule) (j : Nat) :
 /-- The pairs of one equal range. -/
 theorem eqRange_sim {sh : Shared} {Ref : String → Prop} (diff : Differ) (hd : GoodDiffer diff)
     (hid : IdentityDiffer diff) (fuel : Nat) (A B : List Rule) (lowA lowB : Nat) :
-    ∀ (ks : List Nat) (st : St) (vg : Vsys), GInv Ref st → SimG sh st vg →
+    ∀ (ks : List Nat) (st : St) (vg : Vsys), GInv Ref st → SimG sh Ref st vg →
       (∀ k ∈ ks, AShape st (A.getD (lowA + k) default).src ∧ AShape st (A.getD (lowA + k) default).dst ∧
         BShape Ref st (B.getD (lowB + k) default).src ∧ BShape Ref st (B.getD (lowB + k) default).dst) →
       ∃ st' vg', ks.foldl (fun st k =>
           equalize diff (fuel + 2) st (A.getD (lowA + k) default) (B.getD (lowB + k) default)) st = st' ∧
-        GInv Ref st' ∧ SimG sh st' vg' ∧ GMono st st' ∧
+        GInv Ref st' ∧ SimG sh Ref st' vg' ∧ GMono st st' ∧
+        (∀ k ∈ ks, GSettled st' (B.getD (lowB + k) default).src ∧ GSettled st' (B.getD (lowB + k) default).dst) ∧
         ∀ fin, GMono st' fin → Step sh st vg st' vg' (ks.flatMap (fun k =>
           eqCmds diff (A.getD (lowA + k) default) (adaptRule fin (B.getD (lowB + k) default)))) := by
   intro ks
   induction ks with
   | nil =>
     intro st vg hI hS _
-    exact ⟨st, vg, rfl, hI, hS, GMono.refl st, fun _ _ => Step.refl sh st vg⟩
+    exact ⟨st, vg, rfl, hI, hS, GMono.refl st, fun _ h => by cases h, fun _ _ => Step.refl sh st vg⟩
   | cons k ks ih =>
     intro st vg hI hS hsh
     obtain ⟨a1, a2, b1, b2⟩ := hsh k (by simp)
     obtain ⟨st1, vg1, e1, i1, s1, m1, set1, set2, step1⟩ := equalize_sim (sh := sh) diff hd hid fuel st vg _ _ hI hS a1 a2 b1 b2
-    obtain ⟨st', vg', e2, i2, s2, m2, hfin⟩ := ih st1 vg1 i1 s1 (fun k' hk' => by
+    obtain ⟨st', vg', e2, i2, s2, m2, hset, hfin⟩ := ih st1 vg1 i1 s1 (fun k' hk' => by
       obtain ⟨x1, x2, y1, y2⟩ := hsh k' (List.mem_cons_of_mem _ hk')
       exact ⟨x1.mono m1, x2.mono m1, y1.mono m1, y2.mono m1⟩)
-    refine ⟨st', vg', by simp only [List.foldl_cons, e1, e2], i2, s2, m1.trans m2, ?_⟩
+    refine ⟨st', vg', by simp only [List.foldl_cons, e1, e2], i2, s2, m1.trans m2, ?_, ?_⟩
+    · intro k' hk'
+      rcases List.mem_cons.mp hk' with rfl | hk'
+      · exact ⟨set1.mono m2, set2.mono m2⟩
+      · exact hset k' hk'
     intro fin hmf
     simp only [List.flatMap_cons]
     rw [adaptRule_mono (m2.trans hmf) set1 set2]
@@ -159,19 +164,21 @@ def EqBounded (n m : Nat) (rs : List Range) : Prop :=
 /-- **First loop of `diffRules`.** -/
 theorem rulePhase1_sim {sh : Shared} {Ref : String → Prop} (diff : Differ) (hd : GoodDiffer diff)
     (hid : IdentityDiffer diff) (fuel : Nat) (A B : List Rule) :
-    ∀ (rs : List Range) (st : St) (vg : Vsys) (d : Nat) (ins : List InsGroup), GInv Ref st → SimG sh st vg →
+    ∀ (rs : List Range) (st : St) (vg : Vsys) (d : Nat) (ins : List InsGroup), GInv Ref st → SimG sh Ref st vg →
       (∀ ra ∈ A, AShape st ra.src ∧ AShape st ra.dst) →
       (∀ rb ∈ B, BShape Ref st rb.src ∧ BShape Ref st rb.dst) →
       EqBounded A.length B.length rs →
       ∃ st' vg' d', rs.foldl (phase1Step diff (fuel + 2) A B) (st, d, ins) =
           (st', d', ins ++ insGroupsFrom (ruleNames A) d rs) ∧
-        GInv Ref st' ∧ SimG sh st' vg' ∧ GMono st st' ∧
+        GInv Ref st' ∧ SimG sh Ref st' vg' ∧ GMono st st' ∧
+        (∀ p ∈ eqPairs rs, GSettled st' (B.getD p.2 default).src ∧ GSettled st' (B.getD p.2 default).dst) ∧
         ∀ fin, GMono st' fin → Step sh st vg st' vg' (phase1Cmds diff A (B.map (adaptRule fin)) rs) := by
   intro rs
   induction rs with
   | nil =>
     intro st vg d ins hI hS _ _ _
-    exact ⟨st, vg, d, by simp [insGroupsFrom], hI, hS, GMono.refl st, fun _ _ => Step.refl sh st vg⟩
+    exact ⟨st, vg, d, by simp [insGroupsFrom], hI, hS, GMono.refl st, fun _ h => by simp [eqPairs] at h,
+      fun _ _ => Step.refl sh st vg⟩
   | cons r rs ih =>
     intro st vg d ins hI hS hAr hBr hbd
     have hbd' : EqBounded A.length B.length rs := fun r' hr' => hbd r' (List.mem_cons_of_mem _ hr')
@@ -184,28 +191,34 @@ theorem rulePhase1_sim {sh : Shared} {Ref : String → Prop} (diff : Differ) (hd
         obtain ⟨ru, _, rfl⟩ := List.mem_map.mp hc
         rfl
       have step1 := Step.ruleCmds sh st vg _ hcs
-      obtain ⟨st', vg', d', e, i2, s2, m2, hfin⟩ := ih (st.emitAll ((A.extract r.lowA r.highA).map (fun ru => Cmd.delRule ru.name)))
+      obtain ⟨st', vg', d', e, i2, s2, m2, hset, hfin⟩ := ih (st.emitAll ((A.extract r.lowA r.highA).map (fun ru => Cmd.delRule ru.name)))
         vg r.highA ins (hI.emitAll _) (hS.emitAll _)
         (fun ra hra => ⟨(hAr ra hra).1.mono step1.mono, (hAr ra hra).2.mono step1.mono⟩)
         (fun rb hrb => ⟨(hBr rb hrb).1.mono step1.mono, (hBr rb hrb).2.mono step1.mono⟩) hbd'
-      refine ⟨st', vg', d', ?_, i2, s2, step1.mono.trans m2, ?_⟩
+      refine ⟨st', vg', d', ?_, i2, s2, step1.mono.trans m2, ?_, ?_⟩
       · rw [e]; simp [insGroupsFrom, hk]
+      · intro p hp
+        simp only [eqPairs, hk, List.nil_append] at hp
+        exact hset p hp
       · intro fin hmf
         simp only [phase1Cmds, hk]
         exact step1.trans (hfin fin hmf)
     | ins =>
       rw [phase1Step_ins _ _ _ _ _ _ _ _ hk]
-      obtain ⟨st', vg', d', e, i2, s2, m2, hfin⟩ := ih st vg d
+      obtain ⟨st', vg', d', e, i2, s2, m2, hset, hfin⟩ := ih st vg d
         (ins ++ [⟨(A[max r.lowA d]?).map (·.name), r.lowB, r.highB⟩]) hI hS hAr hBr hbd'
-      refine ⟨st', vg', d', ?_, i2, s2, m2, ?_⟩
+      refine ⟨st', vg', d', ?_, i2, s2, m2, ?_, ?_⟩
       · rw [e]; simp [insGroupsFrom, hk, ruleNames, List.append_assoc]
+      · intro p hp
+        simp only [eqPairs, hk, List.nil_append] at hp
+        exact hset p hp
       · intro fin hmf
         simp only [phase1Cmds, hk, List.nil_append]
         exact hfin fin hmf
     | eq =>
       rw [phase1Step_eq _ _ _ _ _ _ _ _ hk]
       obtain ⟨b1, b2, b3⟩ := hbd r (by simp) hk
-      obtain ⟨st1, vg1, e1, i1, s1, m1, hfin1⟩ := eqRange_sim (sh := sh) diff hd hid fuel A B r.lowA r.lowB
+      obtain ⟨st1, vg1, e1, i1, s1, m1, hset1, hfin1⟩ := eqRange_sim (sh := sh) diff hd hid fuel A B r.lowA r.lowB
         (List.range (r.highA - r.lowA)) st vg hI hS (by
           intro k hk'
           simp only [List.mem_range] at hk'
@@ -215,11 +228,17 @@ theorem rulePhase1_sim {sh : Shared} {Ref : String → Prop} (diff : Differ) (hd
           have hmb : B.getD (r.lowB + k) default ∈ B := List.mem_of_getElem? (getElem?_of_lt B _ hjB)
           exact ⟨(hAr _ hma).1, (hAr _ hma).2, (hBr _ hmb).1, (hBr _ hmb).2⟩)
       rw [e1]
-      obtain ⟨st', vg', d', e, i2, s2, m2, hfin⟩ := ih st1 vg1 d ins i1 s1
+      obtain ⟨st', vg', d', e, i2, s2, m2, hset, hfin⟩ := ih st1 vg1 d ins i1 s1
         (fun ra hra => ⟨(hAr ra hra).1.mono m1, (hAr ra hra).2.mono m1⟩)
         (fun rb hrb => ⟨(hBr rb hrb).1.mono m1, (hBr rb hrb).2.mono m1⟩) hbd'
-      refine ⟨st', vg', d', ?_, i2, s2, m1.trans m2, ?_⟩
+      refine ⟨st', vg', d', ?_, i2, s2, m1.trans m2, ?_, ?_⟩
       · rw [e]; simp [insGroupsFrom, hk]
+      · intro p hp
+        simp only [eqPairs, hk, List.mem_append, List.mem_map, List.mem_range] at hp
+        rcases hp with ⟨k, hk', rfl⟩ | hp
+        · obtain ⟨x1, x2⟩ := hset1 k (by simpa using hk')
+          exact ⟨x1.mono m2, x2.mono m2⟩
+        · exact hset p hp
       · intro fin hmf
         simp only [phase1Cmds, hk]
         have := hfin1 fin (m2.trans hmf)
@@ -229,8 +248,8 @@ theorem rulePhase1_sim {sh : Shared} {Ref : String → Prop} (diff : Differ) (hd
 /-! ### Second loop -/
 
 theorem insertRule_sim {sh : Shared} {Ref : String → Prop} (anchor : Option String) (st : St) (vg : Vsys) (ru : Rule)
-    (hI : GInv Ref st) (hS : SimG sh st vg) (hB1 : BShape Ref st ru.src) (hB2 : BShape Ref st ru.dst) :
-    ∃ st', insertRule anchor st ru = st' ∧ GInv Ref st' ∧ SimG sh st' vg ∧ GMono st st' ∧
+    (hI : GInv Ref st) (hS : SimG sh Ref st vg) (hB1 : BShape Ref st ru.src) (hB2 : BShape Ref st ru.dst) :
+    ∃ st', insertRule anchor st ru = st' ∧ GInv Ref st' ∧ SimG sh Ref st' vg ∧ GMono st st' ∧
       GSettled st' ru.src ∧ GSettled st' ru.dst ∧
       Step sh st vg st' vg (Cmd.setRule (adaptRule st' ru) ::
         (match anchor with | some d => [Cmd.move ru.name d] | none => [])) := by
@@ -275,37 +294,44 @@ theorem extract_map {α β : Type} (f : α → β) (l : List α) (lo hi : Nat) :
 
 /-- **Second loop of `diffRules`.** -/
 theorem rulePhase2_sim {sh : Shared} {Ref : String → Prop} (B : List Rule) (vg : Vsys) :
-    ∀ (gs : List InsGroup) (st : St), GInv Ref st → SimG sh st vg →
+    ∀ (gs : List InsGroup) (st : St), GInv Ref st → SimG sh Ref st vg →
       (∀ rb ∈ B, BShape Ref st rb.src ∧ BShape Ref st rb.dst) →
-      ∃ st', rulePhase2 st B gs = st' ∧ GInv Ref st' ∧ SimG sh st' vg ∧ GMono st st' ∧
+      ∃ st', rulePhase2 st B gs = st' ∧ GInv Ref st' ∧ SimG sh Ref st' vg ∧ GMono st st' ∧
+        (∀ g ∈ gs, ∀ ru ∈ B.extract g.lowB g.highB, GSettled st' ru.src ∧ GSettled st' ru.dst) ∧
         ∀ fin, GMono st' fin → Step sh st vg st' vg (phase2Cmds (B.map (adaptRule fin)) gs) := by
   intro gs
   induction gs with
   | nil =>
     intro st hI hS _
-    exact ⟨st, rfl, hI, hS, GMono.refl st, fun _ _ => by simp only [phase2Cmds, List.flatMap_nil]; exact Step.refl sh st vg⟩
+    exact ⟨st, rfl, hI, hS, GMono.refl st, fun _ h => by cases h,
+      fun _ _ => by simp only [phase2Cmds, List.flatMap_nil]; exact Step.refl sh st vg⟩
   | cons g gs ih =>
     intro st hI hS hBr
     unfold rulePhase2 at ih ⊢
     simp only [List.foldl_cons]
-    have hinner : ∀ (l : List Rule) (s : St), GInv Ref s → SimG sh s vg →
+    have hinner : ∀ (l : List Rule) (s : St), GInv Ref s → SimG sh Ref s vg →
         (∀ rb ∈ l, BShape Ref s rb.src ∧ BShape Ref s rb.dst) →
-        ∃ s', l.foldl (insertRule g.anchor) s = s' ∧ GInv Ref s' ∧ SimG sh s' vg ∧ GMono s s' ∧
+        ∃ s', l.foldl (insertRule g.anchor) s = s' ∧ GInv Ref s' ∧ SimG sh Ref s' vg ∧ GMono s s' ∧
+          (∀ ru ∈ l, GSettled s' ru.src ∧ GSettled s' ru.dst) ∧
           ∀ fin, GMono s' fin → Step sh s vg s' vg (l.flatMap (fun ru =>
             Cmd.setRule (adaptRule fin ru) :: (match g.anchor with | some d => [Cmd.move ru.name d] | none => []))) := by
       intro l
       induction l with
       | nil =>
         intro s hI hS _
-        exact ⟨s, rfl, hI, hS, GMono.refl s, fun _ _ => Step.refl sh s vg⟩
+        exact ⟨s, rfl, hI, hS, GMono.refl s, fun _ h => by cases h, fun _ _ => Step.refl sh s vg⟩
       | cons ru l ihl =>
         intro s hIs hSs hl
         obtain ⟨b1, b2⟩ := hl ru (by simp)
         obtain ⟨s1, e1, i1, ss1, m1, set1, set2, step1⟩ := insertRule_sim (sh := sh) g.anchor s vg ru hIs hSs b1 b2
-        obtain ⟨s', e2, i2, ss2, m2, hfin⟩ := ihl s1 i1 ss1 (fun rb hrb => by
+        obtain ⟨s', e2, i2, ss2, m2, hsetl, hfin⟩ := ihl s1 i1 ss1 (fun rb hrb => by
           obtain ⟨y1, y2⟩ := hl rb (List.mem_cons_of_mem _ hrb)
           exact ⟨y1.mono m1, y2.mono m1⟩)
-        refine ⟨s', by simp only [List.foldl_cons, e1, e2], i2, ss2, m1.trans m2, ?_⟩
+        refine ⟨s', by simp only [List.foldl_cons, e1, e2], i2, ss2, m1.trans m2, ?_, ?_⟩
+        · intro ru' hru'
+          rcases List.mem_cons.mp hru' with rfl | hru'
+          · exact ⟨set1.mono m2, set2.mono m2⟩
+          · exact hsetl ru' hru'
         intro fin hmf
         simp only [List.flatMap_cons]
         rw [adaptRule_mono (m2.trans hmf) set1 set2]
@@ -314,11 +340,16 @@ theorem rulePhase2_sim {sh : Shared} {Ref : String → Prop} (B : List Rule) (vg
       intro rb hrb
       simp only [List.extract] at hrb
       exact List.mem_of_mem_drop (List.mem_of_mem_take hrb)
-    obtain ⟨s1, e1, i1, ss1, m1, hfin1⟩ := hinner (B.extract g.lowB g.highB) st hI hS (fun rb hrb => hBr rb (hmem rb hrb))
+    obtain ⟨s1, e1, i1, ss1, m1, hset1, hfin1⟩ := hinner (B.extract g.lowB g.highB) st hI hS (fun rb hrb => hBr rb (hmem rb hrb))
     have hg : insertGroup B st g = s1 := by unfold insertGroup; exact e1
     rw [hg]
-    obtain ⟨s', e2, i2, ss2, m2, hfin⟩ := ih s1 i1 ss1 (fun rb hrb => ⟨(hBr rb hrb).1.mono m1, (hBr rb hrb).2.mono m1⟩)
-    refine ⟨s', e2, i2, ss2, m1.trans m2, ?_⟩
+    obtain ⟨s', e2, i2, ss2, m2, hset2, hfin⟩ := ih s1 i1 ss1 (fun rb hrb => ⟨(hBr rb hrb).1.mono m1, (hBr rb hrb).2.mono m1⟩)
+    refine ⟨s', e2, i2, ss2, m1.trans m2, ?_, ?_⟩
+    · intro g' hg' ru hru
+      rcases List.mem_cons.mp hg' with rfl | hg'
+      · obtain ⟨x1, x2⟩ := hset1 ru hru
+        exact ⟨x1.mono m2, x2.mono m2⟩
+      · exact hset2 g' hg' ru hru
     intro fin hmf
     have h1 := hfin1 fin (m2.trans hmf)
     have h2 := hfin fin hmf
@@ -367,10 +398,15 @@ every group is called by its final name on the device; the group-member requests
 with them are accepted by the group table. -/
 theorem diffRules_sim {sh : Shared} {Ref : String → Prop} (diff : Differ) (hd : GoodDiffer diff)
     (hid : IdentityDiffer diff) (fuel : Nat) (a b : Vsys) (A B : List Rule) (st : St) (vg : Vsys)
-    (hI : GInv Ref st) (hS : SimG sh st vg)
+    (hI : GInv Ref st) (hS : SimG sh Ref st vg)
     (hAr : ∀ ra ∈ A, AShape st ra.src ∧ AShape st ra.dst)
     (hBr : ∀ rb ∈ B, BShape Ref st rb.src ∧ BShape Ref st rb.dst) :
-    ∃ fin vg', diffRules diff (fuel + 2) st a b A B = fin ∧ GInv Ref fin ∧ SimG sh fin vg' ∧ GMono st fin ∧
+    ∃ fin vg', diffRules diff (fuel + 2) st a b A B = fin ∧ GInv Ref fin ∧ SimG sh Ref fin vg' ∧ GMono st fin ∧
+      (∀ p ∈ eqPairs (diff A.length B.length (fun i j => ruleEqual a b (A.getD i default) (B.getD j default))),
+        GSettled fin (B.getD p.2 default).src ∧ GSettled fin (B.getD p.2 default).dst) ∧
+      (∀ g ∈ insGroupsFrom (ruleNames A) 0
+          (diff A.length B.length (fun i j => ruleEqual a b (A.getD i default) (B.getD j default))),
+        ∀ ru ∈ B.extract g.lowB g.highB, GSettled fin ru.src ∧ GSettled fin ru.dst) ∧
       Step sh st vg fin vg' (plainRuleCmds diff A (B.map (adaptRule fin))
         (diff A.length B.length (fun i j => ruleEqual a b (A.getD i default) (B.getD j default)))) := by
   unfold diffRules rulePhase1
@@ -378,12 +414,15 @@ theorem diffRules_sim {sh : Shared} {Ref : String → Prop} (diff : Differ) (hd 
   generalize hrs : diff A.length B.length (fun i j => ruleEqual a b (A.getD i default) (B.getD j default)) = rs
   have hbd : EqBounded A.length B.length rs := by
     rw [← hrs]; exact eqBounded_of_validScript (hd _ _ _).1
-  obtain ⟨st1, vg1, d', e1, i1, s1, m1, hfin1⟩ := rulePhase1_sim (sh := sh) diff hd hid fuel A B rs st vg 0 [] hI hS hAr hBr hbd
+  obtain ⟨st1, vg1, d', e1, i1, s1, m1, hset1, hfin1⟩ := rulePhase1_sim (sh := sh) diff hd hid fuel A B rs st vg 0 [] hI hS hAr hBr hbd
   rw [e1]
   simp only [List.nil_append]
-  obtain ⟨fin, e2, i2, s2, m2, hfin2⟩ := rulePhase2_sim (sh := sh) B vg1 (insGroupsFrom (ruleNames A) 0 rs) st1 i1 s1
+  obtain ⟨fin, e2, i2, s2, m2, hset2, hfin2⟩ := rulePhase2_sim (sh := sh) B vg1 (insGroupsFrom (ruleNames A) 0 rs) st1 i1 s1
     (fun rb hrb => ⟨(hBr rb hrb).1.mono m1, (hBr rb hrb).2.mono m1⟩)
-  refine ⟨fin, vg1, e2, i2, s2, m1.trans m2, ?_⟩
+  refine ⟨fin, vg1, e2, i2, s2, m1.trans m2, ?_, hset2, ?_⟩
+  · intro p hp
+    obtain ⟨x1, x2⟩ := hset1 p hp
+    exact ⟨x1.mono m2, x2.mono m2⟩
   unfold plainRuleCmds
   exact (hfin1 fin m2).trans (hfin2 fin (GMono.refl fin))
 
